@@ -70,6 +70,12 @@ def st_history(draw, maxn):
             ev = draw(st_valid(valid))
             valid.append(ev)
             hist.append(ev)
+            if ev["kind"] == 5 and draw(st.integers(0, 2)) == 0:
+                # the deleted event is published again, then the (stored) deletion is sent again
+                tgt = [v for v in valid if any(t[0] == "e" and t[1] == v["id"] for t in ev["tags"])]
+                if tgt:
+                    hist.append(dict(tgt[0]))
+                    hist.append(dict(ev))
         elif c <= 7:
             hist.append(dict(draw(st.sampled_from(valid))))  # duplicate
         else:
